@@ -276,14 +276,17 @@ pub async fn build_scn(name: &'static str, seed: u64) -> Scn {
     prod.add(g.clone()).await.unwrap();
     match name {
         // G ← B1 ← B2 ; B1 spends one output of key 1 and one of key 3, B2 one of key 2
-        "fresh" => {
+        "fresh" | "midchain" => {
             let t1 = mk_tx(&f, &s1[0..1], 1, 2, 101);
             let t3 = mk_tx(&f, &s3[0..1], 3, 1, 103);
             let b1 = produce(&prod, &mut f, &g, g.timestamp + DT, 6, &[t1, t3], true).await;
             prod.add(b1.clone()).await.unwrap();
             let t2 = mk_tx(&f, &s2[2..3], 2, 3, 102);
             let b2 = produce(&prod, &mut f, &b1, b1.timestamp + DT, 6, &[t2], true).await;
-            Scn { name, gp, stake, f, deliver: vec![g.clone(), b1.clone(), b2.clone()], chain: vec![g, b1, b2], other_branch: vec![] }
+            // "midchain": a node that joined after genesis — block 1 is never delivered, so `has_total_supply_loaded`
+            // is false and Block::validate runs with validate_against_utxo = false
+            let deliver = if name == "midchain" { vec![b1.clone(), b2.clone()] } else { vec![g.clone(), b1.clone(), b2.clone()] };
+            Scn { name, gp, stake, f, deliver, chain: vec![g, b1, b2], other_branch: vec![] }
         }
         // social staking required (2000): every block after genesis carries the creator's BlockStake transaction
         "staking" => {
@@ -781,7 +784,8 @@ pub async fn run_block(scn: &Scn, cand: &Block, signers: &[u64], extra: &str, id
     let (op, val);
     {
         let bc = node.bc.read().await;
-        let vau = true; // genesis is on the chain in every scenario: has_total_supply_loaded
+        // `has_total_supply_loaded` for chains shorter than the window: the index knows block 1
+        let vau = bc.blockring.get_longest_chain_block_hash_at_block_id(1).is_some();
         // expected fee transaction and expected rebroadcasts, by the real consensus-value code
         let cv = g.generate_consensus_values(&bc, &node.storage, &node.cfg).await;
         let exp_hash = cv.fee_transaction.as_ref().map(|t| hash(&t.serialize_for_signature()));
@@ -1440,6 +1444,12 @@ async fn run_async(seed: u64, tier: &str, outdir: &str) {
             run_c06(&mut out, &mut w.scn, &base, name, thorough, None).await;
         }
     }
+    // ---------------- C06 on a node that joined mid-chain (no block 1: validate_against_utxo = false)
+    {
+        let mut w = world("midchain", seed).await;
+        let base = w.base.clone();
+        run_c06(&mut out, &mut w.scn, &base, "midchain", thorough, None).await;
+    }
     extra_stats["honest_blocks"] = serde_json::json!({"offered": tally.honest_total, "accepted": tally.honest_accepted});
     extra_stats["atr_payout_probe"] = atr_payout_probe(seed).await;
     extra_stats["replay_probe"] = replay_probe(&mut out, seed).await;
@@ -1649,6 +1659,13 @@ async fn run_c06(out: &mut Out, scn: &mut Scn, base: &[Transaction], name: &str,
                     out.monitor_fail(
                         &format!("C06/accepted-block-carries-tx-list-not-matching-its-signed-root/{}", if same { cls } else { "header-root-altered" }),
                         &format!("Block::validate accepted a block whose transactions do not hash to the merkle root in its signed header (same hash as the original: {}; add_block: {})", same, o.add),
+                        serde_json::json!({"scenario": name, "gt": gt, "edit": en, "seal": format!("{:?}", seal), "op": o.op}),
+                    );
+                }
+                if !verify_signature(&g.pre_hash, &g.signature, &g.creator) {
+                    out.monitor_fail(
+                        &format!("C06/accepted-block-not-signed-by-its-stated-creator/{}", if name == "midchain" { "node-without-block-1" } else { "node-with-full-chain" }),
+                        &format!("Block::validate accepted a block whose header signature does not verify under its stated creator (add_block: {})", o.add),
                         serde_json::json!({"scenario": name, "gt": gt, "edit": en, "seal": format!("{:?}", seal), "op": o.op}),
                     );
                 }
